@@ -3,8 +3,11 @@
 Extracted from src/pytezos/michelson/types/pair.py and instructions/adt.py:
   * does `iter_comb` / `unpairn_comb` stop descending at an inner pair whose *type* carries a `%field` / `:type`
     annotation (`not (item.field_name or item.type_name)` in the descend condition)?            -> Option Bool each
+  * which of the two recognised shapes has `execute` of GET n / UPDATE n: index tested first (`GET 0` = the value, `UPDATE 0` =
+    the new element, on any types; pair assertion + access_comb / update_comb only for n >= 1 — the repaired shape), or pair
+    assertion first and the helper called for every n (the defective shape)?                        -> Option Bool each
   * are the bodies of `access_comb`, `update_comb`, `from_comb`, `init`, `create_type`, `to_micheline_value`
-    and of `execute` of GET n / UPDATE n / PAIR / UNPAIR / PAIR n / UNPAIR n / CAR / CDR the ones the Lean mirror
+    and of `execute` of PAIR / UNPAIR / PAIR n / UNPAIR n / CAR / CDR the ones the Lean mirror
     (`Impl.Comb`) was written from?                                                                  -> Bool
 Nothing is guessed: a body that is not one of the recognised shapes makes the flag `none` / `false`, the status entry
 fails, and the theorems of Props/C17.lean (stated over these flags) no longer close."""
@@ -48,13 +51,39 @@ PAIR_BODIES = {
         "else:\n    raise AssertionError(f'unsupported mode {mode}')"],
 }
 
+# GET n / UPDATE n: two recognised shapes of `execute` each.  The compound `if index == 0: … else: …` statement is matched by its
+# exact (ast-normalised) source text, like the `for leaf in reversed(leaves)` statement of UNPAIR n below.
+#   repaired (True): the index is looked at first; `GET 0` returns the value itself / `UPDATE 0` returns the new element, whatever
+#                    the types are; the pair assertion and access_comb / update_comb are only reached for n >= 1
+#   defective (False): the pair assertion comes first and access_comb / update_comb is called for every n, so `GET 0` / `UPDATE 0`
+#                    reject non-pairs (and `UPDATE 0` rebuilds the element through from_comb)
+# The flag goes to the Lean mirror (`Impl.Comb.step … zg zu`); the theorems of Props/C17.lean close only for the repaired shape.
+ZERO_SHAPES = {
+    'GetnInstruction': {
+        True: ['pair = cast(PairType, stack.pop1())', 'index = cls.args[0].get_int()',
+               'if index == 0:\n    res = pair\nelse:\n    pair.assert_type_in(PairType)\n    res = pair.access_comb(index)',
+               'stack.push(res)', 'return cls(stack_items_added=1)'],
+        False: ['pair = cast(PairType, stack.pop1())', 'pair.assert_type_in(PairType)', 'index = cls.args[0].get_int()',
+                'res = pair.access_comb(index)', 'stack.push(res)', 'return cls(stack_items_added=1)'],
+    },
+    'UpdatenInstruction': {
+        True: ['element, pair = cast(Tuple[MichelsonType, PairType], stack.pop2())', 'index = cls.args[0].get_int()',
+               'if index == 0:\n    res = element\nelse:\n    pair.assert_type_in(PairType)\n    res = pair.update_comb(index, element)',
+               'stack.push(res)', 'return cls(stack_items_added=1)'],
+        False: ['element, pair = cast(Tuple[MichelsonType, PairType], stack.pop2())', 'pair.assert_type_in(PairType)',
+                'index = cls.args[0].get_int()', 'res = pair.update_comb(index, element)', 'stack.push(res)',
+                'return cls(stack_items_added=1)'],
+    },
+}
+ZERO_WHAT = {
+    'GetnInstruction': ('GET 0', 'getnZeroIdentity', 'does `GET n` look at the index first and return the value itself for `GET 0`, on any type '
+                        '(pair assertion + access_comb only for n >= 1)?  `some false` = the pair assertion comes first (GET 0 rejects non-pairs)'),
+    'UpdatenInstruction': ('UPDATE 0', 'updatenZeroReplaces', 'does `UPDATE n` look at the index first and return the new element for `UPDATE 0`, '
+                           'whatever the two types (pair assertion + update_comb only for n >= 1)?  `some false` = pair assertion first, update_comb for every n'),
+}
+
 # `stdout.append(format_stdout(...))` lines are log text, not an API observable: dropped before comparison
 INSTR_BODIES = {
-    'GetnInstruction': ['pair = cast(PairType, stack.pop1())', 'pair.assert_type_in(PairType)', 'index = cls.args[0].get_int()',
-                        'res = pair.access_comb(index)', 'stack.push(res)', 'return cls(stack_items_added=1)'],
-    'UpdatenInstruction': ['element, pair = cast(Tuple[MichelsonType, PairType], stack.pop2())', 'pair.assert_type_in(PairType)',
-                           'index = cls.args[0].get_int()', 'res = pair.update_comb(index, element)', 'stack.push(res)',
-                           'return cls(stack_items_added=1)'],
     'PairInstruction': ['left, right = stack.pop2()', 'res = PairType.from_comb([left, right])', 'stack.push(res)',
                         'return cls(stack_items_added=1)'],
     'UnpairInstruction': ['pair = cast(PairType, stack.pop1())', 'pair.assert_type_in(PairType)', 'left, right = tuple(iter(pair))',
@@ -130,7 +159,25 @@ def gen(status):
     if fn is None or _no_stdout(_body(fn)) != CXR_BODY:
         bad.append('execute_cxr')
     status['comb helper / instruction bodies mirrored by Impl.Comb'] = (not bad, 'all recognised' if not bad else 'changed: ' + ', '.join(bad))
+
+    for name, shapes in ZERO_SHAPES.items():
+        instr, lean_name, doc = ZERO_WHAT[name]
+        cls = find_class(adt, name)
+        fn = find_func(cls, 'execute') if cls is not None else None
+        body = _no_stdout(_body(fn)) if fn is not None else None
+        flag = next((k for k, want in shapes.items() if body == want), None)
+        if flag is True:
+            detail = f'repaired shape: index tested first, {instr} never reaches the pair assertion'
+        elif flag is False:
+            detail = (f'DEFECTIVE shape: the pair assertion precedes the index test, so {instr} rejects non-pairs '
+                      f'(reference: {"GET 0 is the identity on any type" if instr == "GET 0" else "UPDATE 0 replaces the whole value, any types"})')
+        else:
+            detail = 'unrecognised body: ' + (ast.unparse(fn)[:400] if fn else 'missing')
+        status[f'{name}.execute shape ({instr})'] = (flag is True, detail)
+        out.append(f'/-- {doc} -/')
+        out.append(f'def {lean_name} : Option Bool := {_opt_bool(flag)}')
+
     out.append('/-- the other mirrored bodies (access_comb, update_comb, from_comb, init, create_type, to_micheline_value,\n'
-               'GET n / UPDATE n / PAIR / UNPAIR / PAIR n / UNPAIR n / CAR / CDR) are the ones `Impl.Comb` was written from -/')
+               'PAIR / UNPAIR / PAIR n / UNPAIR n / CAR / CDR) are the ones `Impl.Comb` was written from -/')
     out.append(f'def helpersRecognised : Bool := {str(not bad).lower()}')
     return '\n'.join(out) + '\n'
